@@ -27,6 +27,7 @@ type Features struct {
 	PCb       float64
 	PObj      float64 // parameters gathered into objects
 	PNest     float64 // part of a parameter object moved into a nested parameter object
+	PReenter  float64 // a function whose body calls Invoke on the container again
 	PGroupDec float64 // decorator decorates a group
 	MaxParams int
 	Opts      []cat.Opts
@@ -298,6 +299,36 @@ func Random(r *rand.Rand, ft Features) *cat.Catalog {
 		f.Enc.Variadic = pick(r, 0.1)
 		c.Fns[fmt.Sprintf("i%d", i)] = f
 	}
+	// re-entrant use: the body of some functions calls Invoke on a scope that exists whenever the
+	// function can run (its own scope or an ancestor; the root for invoked functions)
+	nn := 0
+	for _, id := range c.FnIDs() {
+		f := c.Fns[id]
+		if f.Inv != "" || !pick(r, ft.PReenter) {
+			continue
+		}
+		calls := 1 + r.Intn(2)
+		for x := 0; x < calls; x++ {
+			nn++
+			g := &cat.Fn{Kind: "inv", Ps: []cat.Param{{K: anyKey(false), M: "req"}}}
+			if pick(r, 0.3) {
+				g.Ps = append(g.Ps, cat.Param{K: anyKey(false), M: "opt"})
+			}
+			if pick(r, 0.25) {
+				g.Ps = append(g.Ps, cat.Param{K: anyKey(true), M: []string{"grp", "soft"}[r.Intn(2)]})
+			}
+			fixObjects(g)
+			nid := fmt.Sprintf("n%d", nn)
+			c.Fns[nid] = g
+			s := "r"
+			if f.Kind != "inv" {
+				path := c.Path(f.Scope)
+				s = path[r.Intn(len(path))]
+			}
+			f.Nest = append(f.Nest, cat.NestCall{I: nid, S: s})
+		}
+		f.Cb = false
+	}
 	for _, id := range c.FnIDs() {
 		fixObjects(c.Fns[id])
 	}
@@ -362,12 +393,12 @@ func RandomFamily(seed int64, n int, ft Features) []*cat.Catalog {
 // Presets are named feature sets.
 var Presets = map[string]Features{
 	"small": {Scopes: 2, Ctors: 3, Decs: 1, Invs: 1, Types: 3, PNamed: 0.15, POpt: 0.25, PGroup: 0.2,
-		PSoft: 0.3, PFlat: 0.3, PExport: 0.3, PMulti: 0.3, PAs: 0.15, PCb: 0.3, PObj: 0.4, PNest: 0.3, PGroupDec: 0.3, MaxParams: 2},
+		PSoft: 0.3, PFlat: 0.3, PExport: 0.3, PMulti: 0.3, PAs: 0.15, PCb: 0.3, PObj: 0.4, PNest: 0.3, PReenter: 0.12, PGroupDec: 0.3, MaxParams: 2},
 }
 
 func init() {
 	Presets["medium"] = Features{Scopes: 3, Ctors: 6, Decs: 2, Invs: 3, Types: 4, PNamed: 0.15, POpt: 0.25, PGroup: 0.25,
-		PSoft: 0.3, PFlat: 0.3, PExport: 0.3, PMulti: 0.3, PAs: 0.15, PCb: 0.4, PObj: 0.4, PNest: 0.3, PGroupDec: 0.3, MaxParams: 3}
+		PSoft: 0.3, PFlat: 0.3, PExport: 0.3, PMulti: 0.3, PAs: 0.15, PCb: 0.4, PObj: 0.4, PNest: 0.3, PReenter: 0.1, PGroupDec: 0.3, MaxParams: 3}
 	Presets["large"] = Features{Scopes: 4, Ctors: 12, Decs: 4, Invs: 4, Types: 6, PNamed: 0.2, POpt: 0.25, PGroup: 0.25,
-		PSoft: 0.3, PFlat: 0.3, PExport: 0.3, PMulti: 0.35, PAs: 0.15, PCb: 0.4, PObj: 0.4, PNest: 0.3, PGroupDec: 0.3, MaxParams: 3}
+		PSoft: 0.3, PFlat: 0.3, PExport: 0.3, PMulti: 0.35, PAs: 0.15, PCb: 0.4, PObj: 0.4, PNest: 0.3, PReenter: 0.1, PGroupDec: 0.3, MaxParams: 3}
 }
